@@ -153,7 +153,7 @@ func hcGenC03(rng *sim.Rand, tier string) interface{} {
 				ex.RReset = true
 				ex.RChunked = false
 			}
-			if sc.Retry > 1 && sc.SrvMax != -1 && rng.Bool(0.5) {
+			if sc.Retry > 1 && rng.Bool(0.5) {
 				ex.FailFirst = rng.Range(1, sc.Retry-1)
 			}
 			cl.Ex = append(cl.Ex, ex)
@@ -178,6 +178,9 @@ func hcGenC07(rng *sim.Rand, tier string) interface{} {
 	}
 	reqLim := hcEffective(sc.PathMax, sc.SrvMax)
 	respLim := hcEffective(sc.PoolMax, sc.ProxyMax)
+	if reqLim < 0 && rng.Bool(0.4) {
+		sc.Retry = 2 // a streamed body must pass intact, i.e. never be re-sent by a retry
+	}
 	around := func(lim int64) int {
 		if lim < 0 {
 			return rng.Pick(0, 1, 1000, 70000, 300000)
@@ -208,6 +211,9 @@ func hcGenC07(rng *sim.Rand, tier string) interface{} {
 			ex.RInc = rng.Bool(0.3)
 			ex.NewConn = rng.Bool(0.2)
 			ex.AcceptEnc = rng.PickStr("", "identity")
+			if sc.Retry > 1 && rng.Bool(0.5) {
+				ex.FailFirst = 1
+			}
 			if rng.Bool(0.12) && ex.RBodyLen > 2 {
 				ex.RShort = rng.Pick(1, 2, ex.RBodyLen/2, ex.RBodyLen)
 				if ex.RShort > ex.RBodyLen {
@@ -406,6 +412,22 @@ func (c *hcChain) checkC03(id string, ex *hcExchange, res *hcResp) {
 		r.Violate("C03.req.not-forwarded/"+c.facts(ex), "%s: backend never saw the request; client got %d\n%s", id, res.status, desc)
 		return
 	}
+	if c.sc.Retry > 1 && ex.FailFirst > 0 && hcEffective(c.sc.PathMax, c.sc.SrvMax) < 0 {
+		// a streamed request body can be read only once: it must not be retried;
+		// the client gets the failing attempt's answer
+		r.Probe("c03.stream_request_failed_once_not_retried")
+		if seen.count != 1 {
+			r.Violate("C03.req.stream-body-resent", "%s: streamed request was sent to the backend %d times; attempt bodies: %d\n%s", id, seen.count, len(seen.attempts), desc)
+			return
+		}
+		if !bytes.Equal(seen.body, hcBody("q"+id, ex.BodyLen, ex.Inc)) && c.sc.ReqAdaptor == "" {
+			r.Violate("C03.req.body/"+c.facts(ex), "%s: backend saw body %s want %s\n%s", id, hcShort(seen.body), hcShort(hcBody("q"+id, ex.BodyLen, ex.Inc)), desc)
+		}
+		if res.status != 502 {
+			r.Violate("C03.resp.status/"+c.facts(ex), "%s: the only attempt was answered 502 by the backend, client got %d\n%s", id, res.status, desc)
+		}
+		return
+	}
 	if c.sc.Retry > 1 {
 		if seen.count > c.sc.Retry {
 			r.Violate("C03.req.duplicated", "%s: backend saw the request %d times with maxAttempts %d\n%s", id, seen.count, c.sc.Retry, desc)
@@ -585,6 +607,21 @@ func (c *hcChain) checkC07(id string, ex *hcExchange, res *hcResp) {
 	}
 	if reqLim < 0 {
 		r.Probe("c07.request_streamed")
+	}
+	if reqLim < 0 && c.sc.Retry > 1 && ex.FailFirst > 0 {
+		r.Probe("c07.streamed_request_failed_once")
+		if seen == nil || seen.count != 1 {
+			n := 0
+			if seen != nil {
+				n = seen.count
+			}
+			r.Violate("C07.req.stream-body-resent", "%s: streamed request reached the backend %d times (a streamed body can be sent once)\n%s", id, n, desc)
+			return
+		}
+		if seen.bodyErr != nil || !bytes.Equal(seen.body, plain) {
+			r.Violate("C07.req.body-not-intact", "%s: backend saw body %s (err %v) want %s\n%s", id, hcShort(seen.body), seen.bodyErr, hcShort(plain), desc)
+		}
+		return
 	}
 	if res.status == 413 {
 		r.Violate("C07.req.within-limit-413", "%s: request body %d <= limit %d answered 413\n%s", id, ex.BodyLen, reqLim, desc)
